@@ -168,7 +168,9 @@ class Value:
                 self.network = Network(network_names[0])
                 self.currency = cur_code
             else:
-                unknown_code = False
+                # A code that is neither a currency code nor a denominator symbol followed by one is not an amount of
+                # this network's currency
+                unknown_code = len(value_items) > 1
                 for den, symb in NETWORK_DENOMINATORS.items():
                     if len(symb) and cur_code[:len(symb)] == symb:
                         rest_code = cur_code[len(symb):]
